@@ -42,6 +42,16 @@ add("C03",
     "Trusts numpy broadcasting as the reference; ufunc / numpy-scalar-left results are checked for values only; "
     "stacked components are compared by array, validity and default labels (scalar components carry no label).")
 
+add("C04",
+    "complete enumeration of all validity patterns up to L=10 (12) x order x open/periodic with property-text "
+    "oracles (monomial exactness per run, linearity, locality, ring shifts); Hypothesis embeddings in n-d meshes",
+    "Every one of the 2^L validity patterns for L<=10 (quick) / 12 (thorough), both orders, open and periodic, is "
+    "decided completely for the monomial basis, and extended to all real data by the linearity and locality checks "
+    "on random data; n-d meshes are reduced to this by checking that each grid line and component equals the 1-d "
+    "result. Exhaustive for the enumerated bound, sampled beyond it.",
+    "No reference stencil is assumed; exactness tolerance 1e-9*max|v|/h^order; cell sizes 0.3 and 2^-7 in the "
+    "enumeration, arbitrary in the embeddings.", category="exploration")
+
 PENDING = {}
 
 
